@@ -161,8 +161,7 @@ SANITISED_KEYWORDS = {"if", "end", "true", "false", "while", "else", "elif", "ty
 def gen_spec(rng, tier="quick", profile=None):
     """random DAG + CPTs.  returns (spec, features)"""
     profile = profile or rng.choice(["plain", "messy", "messy", "messy", "collide", "collide"])
-    nmax = 6 if tier == "quick" else 7
-    n = rng.choice([2, 3, 3, 4, 4, 5, 5, nmax])
+    n = rng.choice([2, 3, 3, 4, 4, 5, 5, 6] if tier == "quick" else [2, 3, 3, 4, 4, 5, 5, 6, 6, 7])
     names, feats = pick_names(rng, n, profile)
     feats.add(f"profile-{profile}")
     vars_ = []
@@ -291,7 +290,7 @@ def gen_queries(rng, spec, tier="quick", count=3):
         sep_eq = rng.choice([" = ", "=", " =", "= "])
         sep_c = rng.choice([", ", ",", " , "])
         evs = sep_c.join(f"{x}{sep_eq}{y}" for x, y in ev)
-        if j % 2 == 0 or tier != "quick" and rng.random() < 0.5:
+        if j % 2 == 0:
             t = rng.randrange(n)
             k = rng.choice([1, 2, 2, 3] if tier == "quick" else [1, 2, 3, 3, 4])
             tgt = vs[t]["name"] + (f"**{k}" if (k > 1 or rng.random() < 0.3) else "")
@@ -670,3 +669,47 @@ def mutations(spec, rng, tol_dec, count=6):
         out.append({"kind": kind, "expect": expect, "text": doc_text(doc), "detail": detail,
                     **({"spec": newspec} if newspec else {})})
     return out
+
+
+# ------------------------------------------------------------------ transcribed textbook networks (fixed cases)
+def _v(name, domain, parents, rows):
+    return {"name": name, "domain": domain, "parents": parents, "rows": rows}
+
+
+CANCER = {"netname": "unknown", "vars": [
+    _v("Pollution", ["low", "high"], [], [["0.9", "0.1"]]),
+    _v("Smoker", ["True", "False"], [], [["0.3", "0.7"]]),
+    # rows in product order of (Pollution, Smoker): (low,True) (low,False) (high,True) (high,False)
+    _v("Cancer", ["True", "False"], ["Pollution", "Smoker"],
+       [["0.03", "0.97"], ["0.001", "0.999"], ["0.05", "0.95"], ["0.02", "0.98"]]),
+    _v("Xray", ["positive", "negative"], ["Cancer"], [["0.9", "0.1"], ["0.2", "0.8"]]),
+    _v("Dyspnoea", ["True", "False"], ["Cancer"], [["0.65", "0.35"], ["0.3", "0.7"]]),
+]}
+CANCER_QUERIES = [
+    {"type": "time", "evidence": [["Xray", "positive"], ["Dyspnoea", "True"]], "string": "Xray = positive, Dyspnoea = True"},
+    {"type": "exact", "target": "Cancer", "power": 2, "evidence": [["Xray", "positive"], ["Dyspnoea", "True"]],
+     "string": "Cancer**2 | Xray = positive, Dyspnoea = True"},
+    {"type": "exact", "target": "Xray", "power": 1, "evidence": [["Smoker", "True"]], "string": "Xray | Smoker = True"},
+]
+
+# the `survey` network of Scutari & Denis with its published variable names (A, S, E, O, R, T); the copy shipped in
+# /repo/bayesnet/repo/small/survey.bif renames E to E_x
+SURVEY = {"netname": "unknown", "vars": [
+    _v("A", ["young", "adult", "old"], [], [["0.3", "0.5", "0.2"]]),
+    _v("S", ["M", "F"], [], [["0.6", "0.4"]]),
+    # product order of (A, S): (young,M) (young,F) (adult,M) (adult,F) (old,M) (old,F)
+    _v("E", ["high", "uni"], ["A", "S"],
+       [["0.75", "0.25"], ["0.64", "0.36"], ["0.72", "0.28"], ["0.7", "0.3"], ["0.88", "0.12"], ["0.9", "0.1"]]),
+    _v("O", ["emp", "self"], ["E"], [["0.96", "0.04"], ["0.92", "0.08"]]),
+    _v("R", ["small", "big"], ["E"], [["0.25", "0.75"], ["0.2", "0.8"]]),
+    # product order of (O, R): (emp,small) (emp,big) (self,small) (self,big)
+    _v("T", ["car", "train", "other"], ["O", "R"],
+       [["0.48", "0.42", "0.1"], ["0.58", "0.24", "0.18"], ["0.56", "0.36", "0.08"], ["0.7", "0.21", "0.09"]]),
+]}
+SURVEY_QUERIES = [
+    {"type": "exact", "target": "T", "power": 1, "evidence": [["E", "uni"]], "string": "T | E = uni"},
+    {"type": "time", "evidence": [["O", "self"], ["R", "big"]], "string": "O = self, R = big"},
+    {"type": "exact", "target": "E", "power": 1, "evidence": [["S", "F"]], "string": "E | S = F"},
+]
+FIXED = [("corpus-cancer", CANCER, CANCER_QUERIES, ["corpus", "name-needs-sanitising"]),
+         ("corpus-survey-E", SURVEY, SURVEY_QUERIES, ["corpus", "name-constant", "name-needs-sanitising"])]
